@@ -239,16 +239,45 @@ class Ctx:
         props_file = props_file or f"Props/{self.pid}.v"
         # hygiene scan over every source file of the development (comments stripped)
         bad = []
+        # files this property depends on: its own directories, Common, Props/<id>*.v and (transitively) every
+        # directory they `Require`; forbidden commands elsewhere are recorded but do not fail THIS property
+        deps = set(dirs) | {"Common"}
+        frontier = list(deps)
+        while frontier:
+            d = frontier.pop()
+            files = list((COQ / d).glob("*.v")) + [f for f in (COQ / "Props").glob("*.v") if f.stem.split("_")[0] in dirs]
+            for f in files:
+                try:
+                    t = f.read_text()
+                except OSError:
+                    continue
+                for m in re.finditer(r"\b(C\d\d|Common)\.[A-Z]", t):
+                    if m.group(1) not in deps:
+                        deps.add(m.group(1))
+                        frontier.append(m.group(1))
+        foreign = []
         for v in sorted(COQ.rglob("*.v")):
             if "Cases" in v.parts:
                 continue
-            txt = _strip_coq_comments(v.read_text())
+            try:
+                txt = _strip_coq_comments(v.read_text())
+            except OSError:
+                continue
+            rel = v.relative_to(COQ)
+            mine = rel.parts[0] in deps or (rel.parts[0] == "Props" and rel.stem.split("_")[0] in dirs)
+            if not mine:
+                for m in FORBIDDEN.finditer(txt):
+                    foreign.append(f"{rel}: {m.group(0)}")
+                continue
             for m in FORBIDDEN.finditer(txt):
                 bad.append(f"{v.relative_to(COQ)}: {m.group(0)}")
             if re.search(r"^\s*(Variable|Variables|Hypothesis|Hypotheses|Context)\b", txt, re.M) and "Section" not in txt:
                 bad.append(f"{v.relative_to(COQ)}: Variable/Hypothesis outside a Section")
         if bad:
             self.broken.append({"kind": "hygiene", "what": bad[:10]})
+        self.extra["hygiene_scope"] = sorted(deps)
+        if foreign:
+            self.extra["forbidden_commands_in_unrelated_files"] = foreign[:10]
         cmd = [str(COQ / "build.sh")] + dirs
         rc, out, dt = sh(cmd, timeout=3000)
         self.checker_cmds.append(" ".join(cmd) + f"   # full .vo build via coq_makefile/make, rc={rc}, {dt:.1f}s")
